@@ -144,6 +144,8 @@ def _frame(rows, cols, index):
         idx = list(range(n))
         random.Random(n + 5).shuffle(idx)
         df.index = idx
+    elif index == "duplicated":
+        df.index = [i // 2 for i in range(n)]
     return df
 
 
@@ -406,6 +408,8 @@ def generate(tier, seed):
     yield "standardize", {"rows": WIT_ROWS, "cols": WIT_COLS, "options": {}}, True
     yield "standardize", {"rows": WIT_ROWS, "cols": WIT_COLS, "options": {"standardize": False}, "index": "string"}, True
     yield "standardize", {"rows": WIT_ROWS, "cols": WIT_COLS, "options": {"suppress_warnings": False}, "index": "shifted"}, True
+    yield "standardize", {"rows": WIT_ROWS, "cols": WIT_COLS, "options": {"tcr_precision": "allele"}, "index": "duplicated"}, True
+    yield "standardize", {"rows": [list(reversed(r)) for r in WIT_ROWS], "cols": list(reversed(WIT_COLS)), "options": {}, "index": "permuted"}, True
     mapper = {"foo": "TRBV", "bar": "CDR3B", "baz": "TRBJ"}
     rows3 = [[r[3], r[4], r[5], r[9]] for r in WIT_ROWS]
     yield "standardize", {"rows": rows3, "cols": ["foo", "bar", "baz", "count"], "options": {}, "col_mapper": mapper}, True
@@ -419,7 +423,7 @@ def generate(tier, seed):
         opts = _opts(rng, full=i % 4 == 0)
         if i % 9 == 0:
             opts["standardize"] = False
-        p = {"rows": rows, "cols": cols, "options": opts, "index": [None, "shifted", "string", "permuted"][i % 4]}
+        p = {"rows": rows, "cols": cols, "options": opts, "index": [None, "shifted", "string", "permuted", "duplicated"][i % 5]}
         if i % 5 == 0:
             std_in = [c for c in cols if c in STD_COLS][:2]
             if std_in:
